@@ -290,13 +290,22 @@ func (p *SyncedPool) Names() []string {
 }
 
 func (p *SyncedPool) Close() error {
+	p.Lock()
+	defer p.Unlock()
+
 	for _, w := range p.wrappers {
 		err := w.Flushable.RealClose()
 		if err != nil {
 			return err
 		}
 	}
-	*p = SyncedPool{}
+	// reset everything except the mutexes, which may be in use
+	p.queuedDropsMu.Lock()
+	p.queuedDrops = nil
+	p.queuedDropsMu.Unlock()
+	p.producer = nil
+	p.wrappers = nil
+	p.flushIDKey = nil
 	return nil
 }
 
